@@ -15,6 +15,7 @@ import PdbModel.DriverC17
 import PdbModel.DriverC13
 import PdbModel.DriverC14
 import PdbModel.DriverC16
+import PdbModel.DriverPdb
 namespace PdbModel
 
 def parseLevels (t : String) : Option (List ErrorLevel) :=
@@ -55,6 +56,7 @@ def handle (line : String) : String :=
   | "c13" :: rest => (handleC13 rest).getD "BAD-REQUEST"
   | "c14" :: rest => (handleC14 rest).getD "BAD-REQUEST"
   | "c16" :: rest => (handleC16 rest).getD "BAD-REQUEST"
+  | "pdb" :: rest => (handlePdb rest).getD "BAD-REQUEST"
   | _ => "BAD-REQUEST"
 
 end PdbModel
